@@ -730,6 +730,23 @@ fn systematic_families(rng: &mut Rng, budget: usize) -> Vec<Call> {
                 }
             }
         }
+        // cross-talk between interpreters: the same word asked of every language in a row, starting with
+        // its own (state keyed by the word alone, or shared between the splitters / interpreters of
+        // different languages, shows as soon as the answers differ between languages)
+        {
+            let mut ws: Vec<String> = pool.composite.iter().map(|s| s.to_string()).collect();
+            ws.extend(pool.hundreds.iter().take(2).map(|s| s.to_string()));
+            for _ in 0..4 {
+                ws.push(gen_compound(rng, pool));
+            }
+            for w in ws {
+                let concrete = rng.chance(1, 2);
+                // (k = 7: its own language once more, after all the others)
+                for k in 0..8 {
+                    out.push(Call { lang: (lang + k) % 7, concrete, op: Op::T2d { text: w.clone() }, crash_at: 0, reenter: 0, during_unwind: false });
+                }
+            }
+        }
         let start = out.len();
         'w: for w in &words {
             for v in all_inflections(w) {
